@@ -14,6 +14,23 @@ func genC01(r *core.Rng, id int) *Case {
 	so := gen.DefaultSchemaOpts()
 	so.AllCustom = id%6 == 4
 	s := gen.RandomSchema(r, so)
+	var hzImports *gen.Def
+	if so.AllCustom {
+		// one root field per custom scalar and an operation selecting them all: every bound
+		// package (same last path element, below) is then imported by the generated file
+		var sb strings.Builder
+		sb.WriteString("query HzImports {\n")
+		if q := s.Get("Query"); q != nil {
+			for _, t := range s.Types {
+				if t.Kind == "SCALAR" && s.Field("Query", "hz"+t.Name) == nil {
+					q.Fields = append(q.Fields, &gen.FieldDef{Name: "hz" + t.Name, Type: gen.Named(t.Name, r.Chance(0.5))})
+					sb.WriteString("  hz" + t.Name + "\n")
+				}
+			}
+		}
+		sb.WriteString("}\n")
+		hzImports = &gen.Def{Kind: "query", Name: "HzImports", Text: sb.String()}
+	}
 	oo := gen.DefaultOpOpts()
 	d := gen.RandomDoc(r, s, oo)
 	if id%5 == 2 {
@@ -23,6 +40,9 @@ func genC01(r *core.Rng, id int) *Case {
 	}
 	gen.DecorateSafe(r, s, d, []float64{0, 0.2, 0.35}[id%3])
 	defs := d.Defs()
+	if hzImports != nil {
+		defs = append(defs, hzImports)
+	}
 	l := gen.SingleFile(len(defs))
 	if r.Chance(0.25) {
 		l = gen.RandomLayout(r, len(defs), true)
